@@ -19,11 +19,13 @@ func dtClasses(tier string) []*DT {
 	list := func(e *DT) *DT { return &DT{Kind: "LIST", Elem: e} }
 	s := &DT{Kind: "STRUCT", Name: "Punkt"}
 	cls := []*DT{z, k, b, w, ch, t, p("VARIABLE"), p("VOID"), list(z), list(t), s,
-		{Kind: "TYPEDEF", Name: "Hausnummer", Base: z}, {Kind: "ALIAS", Name: "Ganzzahl", Base: z}, {Kind: "TYPEDEF", Name: "Name", Base: t}, {Kind: "TYPEDEF", Name: "Postleitzahl", Base: z}}
+		{Kind: "TYPEDEF", Name: "Hausnummer", Base: z}, {Kind: "ALIAS", Name: "Ganzzahl", Base: z}, {Kind: "TYPEDEF", Name: "Name", Base: t}, {Kind: "TYPEDEF", Name: "Postleitzahl", Base: z},
+		// a definition whose base is itself a definition (converts to and from that base only, not to the root type)
+		{Kind: "TYPEDEF", Name: "Adressnummer", Base: &DT{Kind: "TYPEDEF", Name: "Hausnummer", Base: z}}}
 	if tier == "thorough" {
 		cls = append(cls, list(k), list(b), list(w), list(ch), list(p("VARIABLE")), list(s), list(list(z)),
 			&DT{Kind: "ALIAS", Name: "Wort", Base: t},
-			&DT{Kind: "ALIAS", Name: "ZL", Base: list(z)}, &DT{Kind: "TYPEDEF", Name: "Adressnummer", Base: &DT{Kind: "TYPEDEF", Name: "Hausnummer", Base: z}},
+			&DT{Kind: "ALIAS", Name: "ZL", Base: list(z)},
 			&DT{Kind: "STRUCT", Name: "Kreis"})
 	}
 	return cls
